@@ -6,6 +6,7 @@
 #[path = "/repo/blots-wasm/src/lib.rs"]
 mod wasm_driver;
 
+mod c03;
 mod c07;
 mod c09;
 mod c10;
@@ -13,6 +14,7 @@ mod c11;
 mod c12;
 mod c14;
 mod c15;
+mod core;
 mod ev;
 mod vgen;
 mod mv;
@@ -74,6 +76,7 @@ fn main() {
                 .iter()
                 .enumerate()
                 .map(|(idx, c)| match prop {
+                    "c03" => c03::replay(c),
                     "c07" => c07::replay(c, thorough, cli.as_deref(), idx),
                     "c09" => c09::replay(c, thorough, cli.as_deref(), idx),
                     "c12" => c12::replay(c, &ls),
@@ -92,6 +95,7 @@ fn main() {
         ("record", prop) => {
             let cli = opt(&args, "--cli");
             let out = match prop {
+                "c03" => c03::record(seed, n),
                 "c07" => c07::record(seed, n, cli.as_deref()),
                 "c12" => c12::record(seed, n),
                 "c10" => c10::record(seed, n),
